@@ -78,6 +78,12 @@ NEEDED = {
  'C08-11': 'C10: debt bank flagged for token-less repayment in the bracket grid (incl. a sub-$5 account, where a full repayment may commit) and the rule that a bank\'s vault takes in what the debt fell by',
  'C09-10': 'decision-matrix scenes with a configured maximum oracle age of 30 s (below the program\'s 60 s default for Pyth)',
  'C09-12': 'venue sweep: the configured reserve / market replaced by an account of the same venue program with the same bytes at another address',
+ 'C10-12': 'healthy account, third party presents an unreadable collateral oracle (another bank\'s, or a stale one) at the start of the bracket',
+ 'C11-10': 'side enumeration with end indices 2^8 / 2^16 / 2^32 + k, far outside the transaction but aliasing a position inside it',
+ 'C12-10': 'frozen bank that is already on a fixed oracle price',
+ 'C12-12': 'a day passes before every frame-matrix case, so that an interest clock moved without accrual shows in the byte diff',
+ 'C19-10': 'fee collection on a group with program fees switched off, offered an outsider\'s token account',
+ 'C19-11': 'second setup_emissions with another mint once the first budget is used up while positions are still owed rewards',
  'C20-7': 'reserve-composition sweep: total liquidity = available + borrowed - fees with fees above the borrowed amount, fractional parts, through the real Kamino / Solend total-liquidity functions and conversions',
  'C08-7': '(caught by the sibling check C10: two start instructions in one transaction)',
  'C08-8': "C12 'nobody' cells: the permissionless staked-settings propagation aimed at ordinary banks",
